@@ -11,6 +11,7 @@ import time
 
 from . import gen
 from . import state_inventory
+from . import litdir
 
 VERIF = os.path.dirname(os.path.dirname(os.path.abspath(__file__)))
 LEAN = os.path.join(VERIF, "lean")
@@ -726,6 +727,15 @@ def check_property(prop, tier, seed, max_search=20000):
             if l and not l.startswith("#"):
                 pairs.append((l, "corpus"))
     pairs += gen.gen_for(prop, tier, seed)
+    # 3a. dictionary for the search: integer literals that are new in /repo/src are planted into these cases
+    try:
+        base_lits = json.load(open(state_inventory.EXPECTED)).get("literals")
+    except (OSError, ValueError):
+        base_lits = None
+    new_lits = litdir.new_literals(base_lits) if base_lits is not None else []
+    lit_pairs = litdir.directed(pairs, new_lits, seed, cap=120000 if tier == "thorough" else 45000)
+    pairs += lit_pairs
+    cov["literal_directed"] = {"new_literals_in_src": new_lits, "cases": len(lit_pairs)}
     lines = [p[0] for p in pairs]
     fams = [p[1] for p in pairs]
     try:
